@@ -119,10 +119,17 @@ class Ctx(object):
             self._built["l2"] = akbuild.build_l2("opt", quiet=False)
         return self._built["l2"]
 
-    def l2_phase(self, name, module, consts, handler, sample_cases=None, max_cases=None, **kw):
-        """TLC exploration as in tlc_phase, but the cases are executed against the repository's Python layer (L2)"""
+    def l2_phase(self, name, module, consts, handler, sample_cases=None, max_cases=None, reuse=None, **kw):
+        """TLC exploration as in tlc_phase, but the cases are executed against the repository's Python layer (L2).
+        `reuse`: the result of an earlier tlc_phase of this check whose exported cases (same case format, a superset of what
+        this phase would enumerate) are replayed instead of running TLC a second time."""
         import l2replay
-        r = self.tlc_phase(name, module, consts, replay_cases=False, **kw)
+        only = os.environ.get("VERIF_ONLY_PHASES")
+        if reuse is not None and reuse.ncases and not (only and name not in only.split(",")):
+            r = reuse
+            self.phases.append({"phase": name, "module": module, "cases": r.ncases, "cases_reused_from_phase": os.path.basename(os.path.dirname(r.cases_path))})
+        else:
+            r = self.tlc_phase(name, module, consts, replay_cases=False, **kw)
         if r is None or not r.ncases:
             return r
         built = self.build_l2()
